@@ -979,3 +979,53 @@ M('davidson-small-problem-sizes-ignore-nev', 'C15', 'constructed-search-space-si
   [('JDSymEigsBase.h', "m_initial_search_space_size = (std::max)(m_number_eigenvalues, m_matrix_operator.cols() / 3);", "m_initial_search_space_size = m_matrix_operator.cols() / 3;")], 'reverts the initial-size part of fix F24')
 M('davidson-maximal-size-below-initial', 'C15', 'constructed-search-space-sizes-admissible',
   [('JDSymEigsBase.h', "        if (m_max_search_space_size < m_initial_search_space_size)\n        {\n            m_max_search_space_size = m_initial_search_space_size;\n        }\n", "")], 'reverts the maximal-size part of fix F24')
+
+# ----------------------------------------------------------------------------- F25 (former known finding K2)
+M('davidson-status-not-reset-at-entry', 'C15', 'status-assigned-on-every-path',
+  [('JDSymEigsBase.h', "        m_info = CompInfo::NotConverging;\n        m_ritz_pairs = RitzPairs<Scalar>();\n", "        m_ritz_pairs = RitzPairs<Scalar>();\n")], 'reverts the status part of fix F25: maxit <= 0 keeps the status of an earlier call')
+
+# ----------------------------------------------------------------------------- F26
+M('hesseigen-kept-block-with-zero-imaginary-part', 'C09', 'kept-2x2-block-emitted-as-complex-pair',
+  [('LinAlg/UpperHessenbergEigen.h', "                    if (z == Scalar(0))\n                        z = Eigen::NumTraits<Scalar>::epsilon() * maxval;\n", "")], 'reverts fix F26')
+
+# ----------------------------------------------------------------------------- F27
+M('arnoldi-init-first-residual-never-checked', 'C07,C02,C01', 'projected-residual-checked-against-the-basis',
+  [('LinAlg/Arnoldi.h', """        if (m_op.norm(m_fac_f) <= sqrt(sqrt(m_eps)) * abs(m_fac_H(0, 0)))
+        {
+            for (int pass = 0; pass < 2; pass++)
+            {
+                const Scalar vf = m_op.inner_product(v, m_fac_f);
+                m_fac_f.noalias() -= v * vf;
+                m_fac_H(0, 0) += vf;
+            }
+        }
+""", "")], 'reverts fix F27')
+M('arnoldi-step-residual-never-checked', 'C07', 'projected-residual-checked-against-the-basis',
+  [('LinAlg/Arnoldi.h', """            if (m_beta > RealScalar(0.717) * m_op.norm(h))
+                continue;
+
+            // f/||f|| is going to be the next column of V, so we need to test
+            // whether (V^H)B(f/||f||) ~= 0
+            m_op.adjoint_product(Vs, m_fac_f, Vf.head(i1));""", """            continue;
+
+            m_op.adjoint_product(Vs, m_fac_f, Vf.head(i1));""")], 'the orthogonality test of every step is skipped')
+
+# ----------------------------------------------------------------------------- F28, F29
+M('arnoldi-orthogonality-test-skipped-by-norm-ratio', 'C07', 'projected-residual-checked-against-the-basis',
+  [('LinAlg/Arnoldi.h', "            // f/||f|| is going to be the next column of V, so we need to test\n            // whether (V^H)B(f/||f||) ~= 0\n            // The test is made in every step",
+    "            if (m_beta > RealScalar(0.717) * m_op.norm(h))\n                continue;\n\n            // f/||f|| is going to be the next column of V, so we need to test\n            // whether (V^H)B(f/||f||) ~= 0\n            // The test is made in every step")], 'reverts fix F28')
+M('arnoldi-breakdown-threshold-absolute', 'C07,C01', 'residual-thresholds-scale-with-the-operator',
+  [('LinAlg/Arnoldi.h', "if (m_beta < beta_thresh * m_op.norm(h))", "if (m_beta < beta_thresh)")], 'reverts fix F29 (Arnoldi)')
+M('lanczos-restart-gate-absolute', 'C07', 'residual-thresholds-scale-with-the-operator',
+  [('LinAlg/Lanczos.h', "if (m_beta < eps_sqrt * wscale)", "if (m_beta < eps_sqrt)")], 'reverts fix F29 (Lanczos gate)')
+N('lanczos-breakdown-threshold-uses-sum-of-squares', 'C07',
+  [('LinAlg/Lanczos.h', "if (m_beta < beta_thresh * (abs(m_fac_H(i, i - 1)) + abs(m_fac_H(i, i))))", "if (m_beta < beta_thresh * sqrt(abs(m_fac_H(i, i - 1)) * abs(m_fac_H(i, i - 1)) + abs(m_fac_H(i, i)) * abs(m_fac_H(i, i))))")], 'another degree-1 scale')
+
+# ----------------------------------------------------------------------------- F30
+M('arnoldi-init-zero-test-entrywise', 'C03,C07', 'no-direct-reduction-in-factorization',
+  [('LinAlg/Arnoldi.h', "if (m_op.norm(m_fac_f) < m_eps * abs(m_fac_H(0, 0)))", "if (m_fac_f.cwiseAbs().maxCoeff() < m_eps * abs(m_fac_H(0, 0)))")], 'reverts fix F30')
+
+# ----------------------------------------------------------------------------- F31
+M('tridiageigen-size-assigned-before-rejection', 'C12', 'rejected-call-leaves-the-object-unchanged',
+  [('LinAlg/TridiagEigen.h', '        if (mat.rows() != mat.cols())\n            throw std::invalid_argument("TridiagEigen: matrix must be square");\n        m_n = mat.rows();\n',
+    '        m_n = mat.rows();\n        if (m_n != mat.cols())\n            throw std::invalid_argument("TridiagEigen: matrix must be square");\n')], 'reverts fix F31 for one class')
